@@ -149,6 +149,41 @@ def check_shapes(ctx: Ctx) -> None:
         f = ctx.index.method(OPS, cls, "_compute_operation_jacobian")
         sa = ShapeAnalysis(f, {}, extra_call=extra_call, attr_hook=attr_hook)
         _report_shapes(ctx, "10.2-kinds", cname(OPS, cls, "_compute_operation_jacobian"), f, sa, ("arr", ("m", "n")))
+    # a scalar function (1-D gradient, GEMSEO's convention) combined with a vector function, both ways round
+    from gv.cfg import cfg_of as _cfg_of
+    from gv.shapes import specialise as _spec
+
+    f = ctx.index.method(OPS, "_MultiplicationFunctionMaker", "_compute_operation_jacobian")
+    con = cname(OPS, "_MultiplicationFunctionMaker", "_compute_operation_jacobian")
+    for first_scalar in (True, False):
+
+        def mixed_call(sa, e, env, _fs=first_scalar):
+            name = last_attr(e)
+            if isinstance(e.func, ast.Attribute):
+                recv = dotted(e.func.value) or ""
+                if "_operand" in recv:
+                    sc = ("_first_operand" in recv) == _fs
+                    if name in ("_jac", "jac"):
+                        return arr("n") if sc else arr("m", "n")
+                    if name in ("func", "evaluate"):
+                        return one(("scalar",)) if sc else arr("m")
+            return extra_call(sa, e, env)
+
+        g = _spec(f, {"self._second_operand_is_number": False})
+        # the branch taken when exactly one of the two Jacobians is 1-D
+        for n_ in ast.walk(g):
+            if isinstance(n_, ast.If) and "ndim" in norm_stmt(n_.test) and isinstance(n_.test, ast.Compare):
+                n_.test = ast.copy_location(ast.Constant(value=isinstance(n_.test.ops[0], ast.NotEq)), n_.test)
+        sa = ShapeAnalysis(g, {}, extra_call=mixed_call, attr_hook=attr_hook)
+        cg = _cfg_of(g)
+        label = "scalar x vector" if first_scalar else "vector x scalar"
+        msgs = sorted({m_ for _, m_ in sa.problems})
+        ctx.ob("10.2-kinds-mixed", con, not msgs, f"{label}: " + "; ".join(msgs) + ": the 1-D gradient of the scalar operand is paired with the output axis of the other operand", node=f, stmt=f"{label}: kind-sound")
+        for r in [s_ for s_ in ast.walk(g) if isinstance(s_, ast.Return) and s_.value is not None and cg.has(s_)]:
+            v = sa.value(r.value)
+            if v is not None:
+                ctx.ob("10.2-kinds-mixed", con, v == ("arr", ("m", "n")), f"{label}: the Jacobian returned has axes {v}; it must be outputs x inputs", node=r, stmt=f"{label}: result is outputs x inputs `{norm_stmt(r.value, 50)}`")
+    ctx.floor("10.2-kinds-mixed", 4)
     # linear composition f o A: A is p x q, f: R^p -> R^m
     f = ctx.index.method(LCF, "LinearCompositeFunction", "_restricted_jac")
 
@@ -373,6 +408,7 @@ def run(ctx: Ctx) -> None:
 
 # ---------------------------------------------------------------------------
 WITNESSES = [
+    {"name": "scalar-gradient-not-promoted", "file": OPS, "old": "        if numpy.ndim(first_jac) != numpy.ndim(second_jac):\n            # A scalar function (1D gradient) combined with a vectorial one.\n            first_jac, second_jac = atleast_2d(first_jac), atleast_2d(second_jac)\n", "new": "", "expect": "10.2"},
     {"name": "ks-scales-in-place", "file": AGG, "old": "    orig_val = orig_val * scale\n", "new": "    orig_val *= scale\n", "nth": 0, "expect": "10.1"},
     {"name": "jac-scaled-in-place", "file": AGG, "old": "    orig_jac = (orig_jac.T * scale).T\n", "new": "    orig_jac *= scale\n", "nth": 0, "expect": "10.1"},
     {"name": "jac-scaled-along-inputs", "file": AGG, "old": "    orig_jac = (orig_jac.T * scale).T\n", "new": "    orig_jac = orig_jac * scale\n", "nth": 1, "expect": "10.2"},
